@@ -37,6 +37,9 @@ type Document struct {
 	stylesRelationshipID string
 	// styles.xml 是否由本库根据样式管理器生成（而不是来自打开的文档/模板）
 	stylesGenerated bool
+	// stylesBaseline 记录打开/克隆文档时样式管理器里每个样式的序列化结果。styles.xml 原文保留的文档
+	// 在保存时据此找出之后通过样式API修改过的样式，把它们的新定义写进文件
+	stylesBaseline map[string]string
 	// 本文档的编号管理器（编号定义属于文档，不在文档之间共享）
 	numberingManager *NumberingManager
 	// 本文档的脚注/尾注管理器
@@ -643,6 +646,7 @@ func openFromZipReader(zipReader *zip.Reader, filename string) (*Document, error
 		// 如果样式解析失败，重新初始化为默认样式
 		doc.styleManager = style.NewStyleManager()
 	}
+	doc.snapshotStyles()
 
 	// 解析文档关系（包括图片等资源的关系）
 	if err := doc.parseDocumentRelationships(); err != nil {
@@ -3563,13 +3567,25 @@ func (d *Document) appendMissingStyles(existing []byte) []byte {
 		}
 	}
 
-	// 需要的样式：自定义样式 + 主文档引用的样式
+	// 需要的样式：自定义样式 + 主文档引用的样式 + 打开（克隆）之后通过样式API修改过的样式
 	needed := make(map[string]bool)
+	changed := make(map[string]bool)
 	for _, st := range d.styleManager.GetAllStyles() {
-		if st != nil && st.CustomStyle {
+		if st == nil {
+			continue
+		}
+		if st.CustomStyle {
 			needed[st.StyleID] = true
 		}
+		if d.stylesBaseline != nil {
+			if data, err := xml.Marshal(st); err == nil && d.stylesBaseline[st.StyleID] != string(data) {
+				needed[st.StyleID] = true
+				changed[st.StyleID] = true
+			}
+		}
 	}
+	// 修改过的样式如果原文里已有定义，先把旧定义换成新的
+	existing = d.replaceChangedStyles(existing, changed)
 	if docData, ok := d.parts["word/document.xml"]; ok {
 		decoder = xml.NewDecoder(bytes.NewReader(docData))
 		for {
@@ -3632,6 +3648,83 @@ func (d *Document) appendMissingStyles(existing []byte) []byte {
 	result = append(result, additions...)
 	result = append(result, '\n')
 	result = append(result, existing[end:]...)
+	return result
+}
+
+// snapshotStyles 记录样式管理器当前每个样式的序列化结果（见 stylesBaseline）
+func (d *Document) snapshotStyles() {
+	d.stylesBaseline = make(map[string]string)
+	if d.styleManager == nil {
+		return
+	}
+	for _, st := range d.styleManager.GetAllStyles() {
+		if st == nil {
+			continue
+		}
+		if data, err := xml.Marshal(st); err == nil {
+			d.stylesBaseline[st.StyleID] = string(data)
+		}
+	}
+}
+
+// replaceChangedStyles 把 styles.xml 原文中 changed 列出的样式定义换成样式管理器里的当前定义，
+// 其余内容逐字节保留。原文里没有定义的样式不在这里处理（由 appendMissingStyles 补充）。
+func (d *Document) replaceChangedStyles(existing []byte, changed map[string]bool) []byte {
+	if len(changed) == 0 {
+		return existing
+	}
+	type span struct {
+		id         string
+		start, end int64
+	}
+	var spans []span
+	decoder := xml.NewDecoder(bytes.NewReader(existing))
+	depth, styleDepth := 0, -1
+	var current span
+	for {
+		offset := decoder.InputOffset()
+		token, err := decoder.Token()
+		if err != nil {
+			if err != io.EOF {
+				return existing // 无法解析，保持原样
+			}
+			break
+		}
+		switch t := token.(type) {
+		case xml.StartElement:
+			depth++
+			if styleDepth < 0 && depth == 2 && t.Name.Local == "style" {
+				styleDepth = depth
+				current = span{id: getAttributeValue(t.Attr, "styleId"), start: offset}
+			}
+		case xml.EndElement:
+			if depth == styleDepth {
+				current.end = decoder.InputOffset()
+				if changed[current.id] {
+					spans = append(spans, current)
+				}
+				styleDepth = -1
+			}
+			depth--
+		}
+	}
+	result := existing
+	for i := len(spans) - 1; i >= 0; i-- {
+		st := d.styleManager.GetStyle(spans[i].id)
+		if st == nil {
+			continue
+		}
+		data, err := xml.MarshalIndent(st, "  ", "  ")
+		if err != nil {
+			continue
+		}
+		data = bytes.Replace(data, []byte("<w:style "), []byte(`<w:style xmlns:w="http://schemas.openxmlformats.org/wordprocessingml/2006/main" `), 1)
+		replaced := make([]byte, 0, len(result)+len(data))
+		replaced = append(replaced, result[:spans[i].start]...)
+		replaced = append(replaced, data...)
+		replaced = append(replaced, result[spans[i].end:]...)
+		result = replaced
+	}
 	return result
 }
 
